@@ -28,7 +28,7 @@ def OPAQUE(what):
 
 
 class CaseEval(object):
-    def __init__(self, funcnode, absval, decide, resolve=None, depth=0):
+    def __init__(self, funcnode, absval, decide, resolve=None, depth=0, observe=None):
         """resolve(call) -> the FunctionDef a call goes to (a module-level helper, a method of the same class), or None: such calls
         are evaluated by running the callee on the abstract values of the arguments (up to 3 levels)"""
         self.fn = funcnode
@@ -36,6 +36,7 @@ class CaseEval(object):
         self._decide = decide
         self._resolve = resolve
         self._depth = depth
+        self._observe = observe      # observe(expr, env, self) is called for every expression statement, in execution order
 
     def _call(self, e, env):
         if self._resolve is None or self._depth >= 3 or e.keywords or any(isinstance(a, ast.Starred) for a in e.args):
@@ -98,7 +99,7 @@ class CaseEval(object):
 
     # ------------------------------------------------------------- statements
     def run(self, env):
-        """-> (env at the end or None if every path returned, return value or NORET)"""
+        """-> (environment at the end of the function / at its return, return value or NORET)"""
         st, env2, ret = self._block(self.fn.body, dict(env))
         return env2, (ret if st == "ret" else NORET)
 
@@ -127,9 +128,9 @@ class CaseEval(object):
     def _block(self, stmts, env):
         for i, st in enumerate(stmts):
             if isinstance(st, ast.Return):
-                return "ret", None, (self.value(st.value, env) if st.value is not None else ("const", None))
+                return "ret", env, (self.value(st.value, env) if st.value is not None else ("const", None))
             if isinstance(st, ast.Raise):
-                return "ret", None, ("raise",)
+                return "ret", env, ("raise",)
             if isinstance(st, ast.Assign):
                 if isinstance(st.value, ast.Tuple) and all(isinstance(t, (ast.Tuple, ast.List)) and len(t.elts) == len(st.value.elts)
                                                            for t in st.targets):
@@ -142,7 +143,17 @@ class CaseEval(object):
                     for t in st.targets:
                         self._assign(t, v, env)
             elif isinstance(st, ast.AugAssign):
-                self._assign(st.target, OPAQUE("aug"), env)
+                # x op= e  is  x = x op e
+                import copy
+                left = copy.deepcopy(st.target)
+                for n_ in ast.walk(left):
+                    if hasattr(n_, "ctx"):
+                        n_.ctx = ast.Load()
+                try:
+                    v = self.value(ast.copy_location(ast.BinOp(left=left, op=st.op, right=st.value), st), env)
+                except Exception:
+                    v = OPAQUE("aug")
+                self._assign(st.target, v, env)
             elif isinstance(st, (ast.For, ast.While)):
                 self._loop_effects(st, env)
             elif isinstance(st, ast.If):
@@ -158,7 +169,9 @@ class CaseEval(object):
             elif isinstance(st, (ast.Try, ast.With)):
                 r = self._block(list(st.body) + stmts[i + 1:], env)
                 return r
-            # Expr, Assert, Pass, nested defs: no effect on the tracked names
+            elif isinstance(st, ast.Expr) and self._observe is not None:
+                self._observe(st.value, env, self)
+            # Assert, Pass, nested defs: no effect on the tracked names
         return "fall", env, None
 
     @staticmethod
@@ -168,14 +181,14 @@ class CaseEval(object):
             return b
         if b[0] == "ret" and b[2] == ("raise",):
             return a
-        if a[0] != b[0]:
-            return "ret", None, UNKNOWN
-        if a[0] == "ret":
-            return "ret", None, (a[2] if a[2] == b[2] else UNKNOWN)
         env = {}
-        for k in set(a[1]) | set(b[1]):
-            va, vb = a[1].get(k, UNKNOWN), b[1].get(k, UNKNOWN)
+        for k in set(a[1] or {}) | set(b[1] or {}):
+            va, vb = (a[1] or {}).get(k, UNKNOWN), (b[1] or {}).get(k, UNKNOWN)
             env[k] = va if va == vb else UNKNOWN
+        if a[0] != b[0]:
+            return "ret", env, UNKNOWN
+        if a[0] == "ret":
+            return "ret", env, (a[2] if a[2] == b[2] else UNKNOWN)
         return "fall", env, None
 
 
@@ -264,6 +277,36 @@ def symbolic(funcnode, opaque_calls=()):
     def decide(t, env, ev):
         return None
     return CaseEval(funcnode, absval, decide).run({})
+
+
+def sym_absval(e, env, ev=None):
+    """abstract value = canonical text of `e` with every tracked name replaced by the text of its current value"""
+    import copy
+
+    class _S(ast.NodeTransformer):
+        def _lookup(self, key):
+            v = env.get(key)
+            if v is None:
+                return None
+            if v[0] == "sym":
+                return norm.parse_expr(v[1])
+            return ast.Name(id="UNKNOWN", ctx=ast.Load())
+
+        def visit_Name(self, n):
+            if isinstance(n.ctx, ast.Load):
+                r = self._lookup(n.id)
+                if r is not None:
+                    return r
+            return n
+
+        def visit_Attribute(self, n):
+            if isinstance(n.ctx, ast.Load):
+                r = self._lookup(norm.canon(n))
+                if r is not None:
+                    return r
+            self.generic_visit(n)
+            return n
+    return ("sym", norm.canon(_S().visit(copy.deepcopy(e))))
 
 
 def path_text(e, env):
